@@ -16,6 +16,7 @@
  R5 first fit         : policy dispatch picks candidate 0 (first) / -1 (last) of an ascending scan.
  Rm memo          : every memoisation construct in the functions behind this property is keyed by everything it reads.
  Rp presence      : optional numeric fields are tested with `is None` / membership, never by truthiness (0 is a value).
+ Re for-each      : loops that act on every item are never left early (break / return).
 """
 import ast
 
@@ -704,6 +705,15 @@ def r7_window(ctx):
 
 
 
+def re_foreach(ctx):
+    """Re: loops that act on EVERY item (store on the item / call a function that writes it) are never left early (break / return):
+    the items after the exit would silently be skipped; the two search loops of the package are a frozen table"""
+    from .common import foreach_rule
+    from ..memo import scope_funcs
+    foreach_rule(ctx, 'Re.for-each', scope_funcs(ctx.repo, 'C14'), 'OMS later on the path keep their spectrum unassigned')
+    ctx.need('Re.for-each', 2)
+
+
 from ..memo import rule_for as _memo_rule
 
 RULES_MEMO = ('Rm.memo', _memo_rule('C14', 'spectrum availability computed for another state would be reused'))
@@ -713,4 +723,4 @@ from ..presence import rule_for as _presence_rule
 
 RULES_PRESENCE = ('Rp.presence', _presence_rule('C14', 'a user-fixed slot N = 0 (the grid anchor) would be treated as not given and placed elsewhere'))
 
-RULES = [('R7.window', r7_window), ('R6.merge-probe', r6_merge_and_probe), ('R1.fresh', r1_fresh), ('R2.commit', r2_commit), ('R4.slots', r4_slots), ('R5.first-fit', r5_first_fit), RULES_MEMO, RULES_PRESENCE]
+RULES = [('R7.window', r7_window), ('R6.merge-probe', r6_merge_and_probe), ('R1.fresh', r1_fresh), ('R2.commit', r2_commit), ('R4.slots', r4_slots), ('R5.first-fit', r5_first_fit), RULES_MEMO, RULES_PRESENCE, ('Re.for-each', re_foreach)]
